@@ -184,7 +184,6 @@ func run(args []string) error {
 	}
 	defer out.Close()
 	var y *launch.YAMLACL
-	var prev string
 	i := 0
 	return h.ReadNDJSON(fl["in"], func(line []byte) error {
 		var st step
@@ -199,7 +198,6 @@ func run(args []string) error {
 				if y, err = w.fresh(); err != nil {
 					return err
 				}
-				prev = "{}\n"
 			}
 			doc := w.yamlOf(st.Cells, i)
 			var updated bool
@@ -213,8 +211,6 @@ func run(args []string) error {
 			}
 			res.Calls++
 			res.Updated = &updated
-			_ = prev
-			prev = doc
 			res.Fails = append(res.Fails, w.ask(y, st.Queries, &res, true)...)
 			if len(res.Fails) > 0 && st.New != 1 {
 				f, err := w.fresh()
